@@ -5,7 +5,8 @@ Obligations, generated per path of the real AST by the same symbolic executor (g
   G1  every read/write of Sigma happens while the owning cache's lock is held;
   G2  a helper that `requires held` (the _..._ll functions) is only called with the lock held;
   G3  one operation enters at most ONE outermost critical section per cache (re-entrant nesting is allowed), so all its
-      Sigma accesses lie in a single critical section.
+      Sigma accesses lie in a single critical section;
+  G4  the lock object of a cache is never replaced after construction.
 From G1-G3 and the RLock contract every schedule is equivalent to a sequential one (meta-argument, DESIGN section 3 C03).
 """
 import ast
@@ -59,6 +60,13 @@ class GuardHooks(L.LockHooks):
                    z3.BoolVal(st.held[sk] <= 1), node)
 
     def field_access(self, eng, st, ref, field, mode, node):
+        if ref.cls.name == 'LRI' and field == '_lock' and mode == 'write':
+            # G4: one lock per cache for its whole life (replacing it lets a thread blocked on the old lock run alongside
+            # threads using the new one); only the constructor, on an object nobody else can see yet, may set it
+            fresh = str(z3.simplify(ref.t)) in st.held.get('fresh', ())
+            eng.oblige('assert', 'guarded-by G4: the lock of a cache is never replaced after construction', st,
+                       z3.BoolVal(fresh), node)
+            return
         if (ref.cls.name, field) not in SIGMA:
             return
         owner = ref if ref.cls.name == 'LRI' else st.locals.get('self')
